@@ -11,11 +11,15 @@ META = dict(
                "safe under adjacency + no duplicated pair (c13_gen_restart_safe_partial; both hypotheses are needed: machine-checked "
                "witnesses); init;compute applies the operator at most 2+2(ncv-1)(maxit+1) <= 2+2*ncv*(maxit+1) times on every path "
                "(c13_work_bound_herm/gen), the complex-shift post-processing adds at most 2*nev uncounted solves (c13_cshift_extra_solves); "
-               "every perform_op(x,y) gets distinct buffers and existing columns of V (c13_op_args_herm/gen); explicit loop bounds, models "
+               "every perform_op(x,y) gets distinct buffers and existing columns of V (c13_op_args_herm/gen); every vector handed to the "
+               "operator (storage table of ALL perform_op call sites of solver code, regenerated from the headers on every run) is an automatic "
+               "local of the calling function or m_fac_V / m_fac_f of the factorization object, never static / thread_local / global storage, "
+               "lifted to every call of every run of the skeleton (c13_op_buffers_owned); explicit loop bounds, models "
                "total without fuel (c13_termination); compress_V / factorize_from index programs in range (c13_compress_indices, "
                "c13_factorize_indices). NaN-freedom and memory safety inside Eigen / the dense eigen-solvers are explored only "
                "(ASan+UBSan+Eigen assertions over the property's input classes on all ten solver classes), not proved.",
-    note="Lean kernel + standard axioms; translator xlate (nev_adjusted, is_complex, is_conj, restart/compute skeletons); hand-written "
+    note="Lean kernel + standard axioms; translator xlate (nev_adjusted, is_complex, is_conj, restart/compute skeletons, storage roots of the "
+         "perform_op arguments); hand-written "
          "index programs Model/RestartIdx.lean (buffer identities of perform_op calls, compress_V/factorize_from access lists) tied to the "
          "code by operator-call traces, m_k at the compress hook and sanitizer runs, not by proof; std::sort modelled only through the "
          "AdjacentConj hypothesis; IEEE comparisons are oracles",
@@ -47,5 +51,6 @@ def run(tier, seed, replay=None):
         R.cov['rule'] = ('A: exhaustive over (nev, ncv <= %d, nconv 0..nev, every zero-estimate mask on positions nev..ncv-1, conjugate patterns = all pairings '
                          '(+ every string over {r,a,conj a,b,s} for ncv <= 5, random strings above), three zero/non-zero value alphabets incl. the near_0 boundary); '
                          'B: real restart() on injected Ritz patterns, all k; C: operator-call traces of real SymEigsSolver/GenEigsSolver runs; '
+                         'D: nested use (GenEigsSolver / SymEigsSolver / GenEigsRealShiftSolver run inside their own operator, inner problem of equal and of different size); '
                          'X: sanitizer exploration over solver classes x matrix classes x (nev,ncv) extremes x maxit x scale') % (14 if tier == 'thorough' else 10)
     return R.finish()
